@@ -27,6 +27,7 @@ var (
 	fWorlds  = flag.Int("sim.worlds", 0, "override the number of worlds of this shard")
 	fMode    = flag.String("sim.mode", "", "special mode (race, child, log)")
 	fLog     = flag.String("sim.log", "", "write a per-world event log here (determinism self-test)")
+	fJournal = flag.String("sim.journal", "", "write every plan here before executing it (crash forensics)")
 )
 
 // Property is one claimed property's machinery.
@@ -200,6 +201,7 @@ var worldLog *os.File
 func TestSim(t *testing.T) {
 	gT = t
 	debug.SetGCPercent(400)
+	journalFile = *fJournal
 	if *fMode == "child" {
 		runChild()
 		return
@@ -281,8 +283,8 @@ func TestSim(t *testing.T) {
 					finish()
 					os.Exit(0)
 				}
-				fmt.Printf("HARNESS-ERROR watchdog: %s exceeded 30s\n", name)
-				os.Exit(2)
+				fmt.Printf("WATCHDOG %s exceeded 30s\n", name)
+				os.Exit(3)
 			}
 		}
 	}()
